@@ -206,7 +206,7 @@ def witness_check(res):
 
 def run(res, tier):
     b = BOUNDS[tier]
-    vs = list(ew.small_vectors(b["N"])) + ew.families()
+    vs = list(ew.small_vectors(b["N"])) + ew.families() + ew.families_large()
     units = [(v, b["coarse"] if len(v) <= 3 else 8, b["ids"] if len(v) <= 3 else 256) for v in vs]
     units += [(v, 8, 64) for v in special_vectors()]
     units += [(v, 10, 256, labels) for v, labels in REPEATS]
